@@ -377,6 +377,21 @@ impl<'w> Judge<'w> {
         let tag = case.unit << 20 | case.idx;
         let mut v = vec![];
         let n = case.valid_len.unwrap_or(0);
+        // a refused operation on another input just before this one, on the same thread with fresh readers:
+        // whatever a skipper keeps outside the protocol object must not leak into the next skip
+        if let Some(p) = &case.prior {
+            let mut pc = case.clone();
+            pc.bytes = p.clone();
+            pc.prior = None;
+            pc.valid_len = None;
+            if case.run_mem {
+                drop(run_mem(&pc, &self.w.gens, Self::loose_caps(&pc), tag));
+            }
+            if case.run_stream {
+                drop(run_stream(&pc, &self.w.gens, Self::loose_caps(&pc), tag));
+            }
+            self.stats.bump("c07.prior_refused_operations");
+        }
         // the value's own length: for field levels it is inside `expect`
         let mem = if case.run_mem { Some(run_mem(case, &self.w.gens, Self::loose_caps(case), tag)) } else { None };
         let st = if case.run_stream { Some(run_stream(case, &self.w.gens, Self::loose_caps(case), tag)) } else { None };
